@@ -629,7 +629,7 @@ func init() {
 	// random selector texts: what the real parser accepts must spell the whole input
 	drivers["seltext"] = func(seed int64, n int, emit func(any)) error {
 		rng := rand.New(rand.NewSource(seed))
-		atoms := []string{".", ".", "[", "]", "\"", "?", ":", "\\", "a", "b_", "é", "0", "12", "-", "$", " ", "[]", "[0]", `["a"]`, "[1:]", ".foo", "..", `\"`,
+		atoms := []string{".", ".", "[", "]", "\"", "?", ":", "\\", "a", "b_", "é", "0", "12", "-", "$", " ", "[]", "[0]", `["a"]`, "[1:]", "[0:2]", "[:-1]", "[2:]", "[-3:3]", "[1:4]", ".foo", "..", `\"`,
 			"[1:2:3]", "[:1:2]", "[1::3]", "[-1:-]", "[1:2", "1:2]", `["a":1]`, `[1:"a"]`, "[0:2:x]"}
 		for it := 0; it < n; it++ {
 			text := "."
